@@ -38,6 +38,36 @@ def plan(ctx):
     return shards
 
 
+def e_shape(program, shape):
+    """A Python expression for `-e` whose value is a program text known by construction, and that text.  The
+    documented helper name `linesep` (== "\\n" here) is used at module level of the expression and inside the
+    nested scopes an expression can have (generator expression, comprehensions, lambda, conditional)."""
+    import os
+    lines = program.split("\n")
+    if os.linesep != "\n" or shape == 0:
+        return repr(program), program
+    if shape == 1:
+        return "linesep.join(%r)" % (lines,), program
+    if shape == 2:
+        return "''.join(l + linesep for l in %r)" % (lines,), "".join(l + "\n" for l in lines)
+    if shape == 3:
+        return "''.join([l + linesep for l in %r])" % (lines,), "".join(l + "\n" for l in lines)
+    if shape == 4:
+        return "(lambda ls: linesep.join(ls))(%r)" % (lines,), program
+    if shape == 5:
+        return "%r + linesep + %r" % (lines[0], "\n".join(lines[1:])), lines[0] + "\n" + "\n".join(lines[1:])
+    if shape == 6:
+        return "str.join(linesep, map(str, %r)) if len(linesep) == 1 else None" % (lines,), program
+    if shape == 7:
+        return "''.join({i: l + linesep for i, l in enumerate(%r)}.values())" % (lines,), "".join(l + "\n" for l in lines)
+    if shape == 8:
+        return "''.join(sorted({(i, l + linesep) for i, l in enumerate(%r)}) and [l + chr(10) for l in %r])" % (lines, lines), "".join(l + "\n" for l in lines)
+    return "(lambda: %r)().replace(chr(0), linesep)" % (program.replace("\n", "\0") if "\0" not in program else program,), program
+
+
+N_ESHAPES = 10
+
+
 def invocations(seed, n, pyver):
     """Deterministic list of invocation specs."""
     import hcommon as H
@@ -74,7 +104,8 @@ def invocations(seed, n, pyver):
                     "flags": [[], ["--source"], ["--json", "--dis", "--dis-after"]][k % 3]})
     for k, prog in enumerate(c16_programs.TEXT_HAZARDS):
         for via in ("-c", "file", "-e"):
-            out.append({"kind": "single", "via": via, "program": prog, "flags": [["--json"], [], ["--no-normalize", "--json"]][(k + len(via)) % 3]})
+            out.append({"kind": "single", "via": via, "program": prog, "flags": [["--json"], [], ["--no-normalize", "--json"]][(k + len(via)) % 3],
+                        "eshape": (k + seed) % N_ESHAPES})
     i = 0
     while len(out) < n:
         via = rng.choice(["file", "-c", "-e", "-m", "-c", "file"])
@@ -86,7 +117,7 @@ def invocations(seed, n, pyver):
                 prog = PROGRAMS[rng.randrange(len(PROGRAMS))]
             else:
                 prog = gen_src.gen_program(H.rng_for(seed, "c16prog", i), pyver, 0.3)
-            out.append({"kind": "single", "via": via, "program": prog, "flags": flags})
+            out.append({"kind": "single", "via": via, "program": prog, "flags": flags, "eshape": rng.randrange(N_ESHAPES)})
         i += 1
     return out
 
@@ -111,6 +142,8 @@ def run(shard):
                                               "NoArg", "Args", "Function", "AdditionalLine"))
     ns.update({"nan": float("nan"), "inf": float("inf"), "Ellipsis": Ellipsis})
     ADDR = re.compile(r"0x[0-9a-fA-F]+")
+    # the command runs in the same interpreter mode as this worker (python -O changes what compile() produces)
+    OFLAGS = (["-" + "O" * sys.flags.optimize] if sys.flags.optimize else []) + (["-bb"] if sys.flags.bytes_warning else [])
     tmpdir = tempfile.mkdtemp(prefix="c16-")
     env = dict(os.environ)
     # a module that only exists as a .pyc file (code but no source text), importable by the CLI subprocess and by this worker
@@ -202,7 +235,7 @@ def run(shard):
             for s in spec["sources"]:
                 argv += [vals[s]] if s == "file" else [s, vals[s]]
             spec["argv_show"] = argv
-            p = subprocess.run([sys.executable, "-c", launcher] + argv, env=env, stdout=subprocess.PIPE, stderr=subprocess.PIPE, timeout=120)
+            p = subprocess.run([sys.executable] + OFLAGS + ["-c", launcher] + argv, env=env, stdout=subprocess.PIPE, stderr=subprocess.PIPE, timeout=120)
             H.feature("usage:%d-sources" % len(spec["sources"]))
             H.distinct("usage:" + repr(argv))
             if p.returncode != 2:
@@ -244,11 +277,15 @@ def run(shard):
                 continue
         if via == "rawfile":
             sa, filename = [rawpath], rawpath
+        elif via == "-e":
+            expr, program = e_shape(program, spec.get("eshape", 0))
+            sa, filename = ["-e", expr], "<string>"
+            H.feature("e-shape:%d" % spec.get("eshape", 0))
         else:
             sa, filename = src_argv(via, program, spec.get("module"))
         argv = sa + flags
         spec["argv_show"] = [a if len(a) < 80 else a[:77] + "..." for a in argv]
-        p = subprocess.run([sys.executable, "-c", launcher] + argv, env=env, stdout=subprocess.PIPE, stderr=subprocess.PIPE, timeout=300)
+        p = subprocess.run([sys.executable] + OFLAGS + ["-c", launcher] + argv, env=env, stdout=subprocess.PIPE, stderr=subprocess.PIPE, timeout=300)
         out = p.stdout.decode("utf-8", "surrogateescape")
         H.feature("via:" + via)
         for f in flags:
